@@ -284,6 +284,24 @@ def run(ctx):
         used = {k for k, cf in collectors.items() if any(n.get("callee") == cf.id for _, _, e in parse.roots() for n in elem_calls(e))}
         ctx.check(used == set(kind_maps), "R13.4", parse, "arguments-built-from-all-kinds", "the result object is built without %s" % sorted(set(kind_maps) - used), parse)
 
+    # ---- R13.6: the name the maps are keyed by IS the option's name: base stores the declared string verbatim
+    ctx.rule("R13.6", "base::name_ is the declared name verbatim (the uniqueness check keys by the declared string, matching uses name())")
+    bct = [f for f in prog.methods_of(NS + "base") if f.kind == "ctor" and f.has_cfg and len(f.params) >= 1 and not f.flags.get("copy_ctor") and not f.flags.get("move_ctor")]
+    ctx.need("R13.6", "base constructors", len(bct), 1)
+    from sa import valueflow
+    for f in bct:
+        p0 = f.params[0]["name"]
+        init = [e for _, _, e in f.all_elems() if e["kind"] == "init" and short(e.get("field") or "") == "name_"]
+        if not init:
+            ctx.bad("R13.6", f, "name-stored-verbatim", "base's constructor does not initialise name_ from its parameter", f)
+            continue
+        okc, why = valueflow.carrier(f, init[0]["expr"], lambda n: isinstance(n, dict) and n.get("k") == "ref" and n.get("decl") == "param:" + p0)
+        # a (string, pos[, len]) construction is a substring, not a copy
+        x = ir.unwrap(init[0]["expr"])
+        nargs = len([a for a in x.get("args", []) if not (isinstance(a, dict) and a.get("k") == "defarg")]) if isinstance(x, dict) and x.get("k") in ("construct", "paren_list") else 1
+        ctx.check(okc and nargs <= 1, "R13.6", f, "name-stored-verbatim",
+                  "base stores %s as its name, not the declared string itself (%s): the maps and the uniqueness check are keyed by the declared string, so two declarations whose stored names coincide "
+                  "are both accepted and one command-line name then denotes two options" % (fmt(init[0]["expr"]), why or "a sub-string / transformed copy"), f, why_ok=fmt(init[0]["expr"]))
     # ---- R13.5
     pc = prog.cls(NS + "parser")
     back = [fl for fl in grp["fields"] if "parser" in fl["type"] and (fl.get("ref") or fl.get("ptr"))]
